@@ -17,6 +17,9 @@ for sid in sorted(os.listdir(os.path.join(here, "seeded"))):
     if not os.path.exists(os.path.join(d, "meta.json")) or (a.only and a.only not in sid):
         continue
     meta = json.load(open(os.path.join(d, "meta.json")))
+    if meta.get("expected_miss"):
+        print("%-55s (recorded as not decidable by its property's check: %s)" % (sid, (meta.get("strengthening") or "")[:90]), flush=True)
+        continue
     props = meta.get("caught_by") or [meta["property"]]
     r = one(sid, open(os.path.join(d, "patch.diff"), "rb").read(), props, tier=a.tier)
     n += 1
